@@ -17,7 +17,7 @@ import (
 	"verif/engine/internal/interp"
 )
 
-const RepoRoot = "/repo"
+var RepoRoot = "/repo"
 const RepoModule = "github.com/gotid/god"
 
 var VerifRoot = "/verif"
